@@ -96,7 +96,10 @@ func c10budgetModel(family, n int) *dsl.Namespace {
 //   nested types         84106  155262  226418  297574   ~ 12900 + 17790 n
 //   generic alias chain  n = 1..6: 53907 100781 231765 688021 2423113 9229129 (x3.8 per level: NOT polynomial; the budget
 //                        below is 2.5 x the closed chain's per-level cost plus a quadratic term, met for n <= 4 only)
-var c10budgetSteps = [c10budgetNFamilies][3]int{{20000, 17500, 900}, {25000, 9700, 0}, {13000, 17800, 0}, {30000, 25000, 1000}}
+// (re-fitted for the generic alias chain after the fixes 9ceb8f6 / 5f48fb4, which make validateMaps and validateUnionCases visit
+//  instantiated definitions and type arguments: n = 3, 4, 5 now cost 399158, 1331402, 4919658 instructions - the same x3.7 per
+//  level at twice the constant; the budget is doubled so that n <= 4 is within and n = 5 is beyond, as before)
+var c10budgetSteps = [c10budgetNFamilies][3]int{{20000, 17500, 900}, {25000, 9700, 0}, {13000, 17800, 0}, {60000, 50000, 2000}}
 
 // heap allocations of the native run at n = 4, 8, 12, 16 (stable to +-5 over runs):
 //   record chain        414  921  1618  2520   ~ 107 + 52 n + 6.2 n^2
